@@ -56,6 +56,49 @@ def env_unit(u) -> Stats:
     return st
 
 
+def poke_unit(u) -> Stats:
+    """The env's incomplete game is a public object: a value set on it directly (not the hidden game's) is knowledge like any other.
+    step(a); unstep(a) of ANOTHER coalition must restore bounds, reward, observation and that value exactly."""
+    _, n, v, comp, gap_name = u
+    from .. import envs as E
+    st = Stats()
+    gap = gaps.registry()[gap_name]
+    env = E.make_env(n, E.Script([v]), comp, gap)
+    ex = E.explorable(env)
+    from ..lattice import coal
+    for c_idx, c in enumerate(ex):
+        for delta in (0.5, -1.0):
+            env.reset()
+            hist = [("reset",), ("poke", c, v[c] + delta)]
+            try:
+                env.incomplete_game.set_value(v[c] + delta, coal(c))
+                env.incomplete_game.compute_bounds()
+                for a in range(len(ex)):
+                    if a == c_idx:
+                        continue
+                    before = E.observe(env)
+                    env.step(a)
+                    env.unstep(a)
+                    after = E.observe(env)
+                    st.transitions += 2
+                    st.evals += 1
+                    bad = [f for f in before._fields if getattr(before, f) != getattr(after, f) and f != "steps"]
+                    if bad:
+                        st.violation(f"[env poke n={n} {comp} {gap_name}] coalition {c} set to {v[c] + delta} through the game object; step({a}); unstep({a}) "
+                                     f"did not restore {bad} (reward {before.reward} -> {after.reward})", engine="poke", n=n, values=list(v), computer=comp,
+                                     gap=gap_name, history=[list(map(str, h)) for h in hist + [("step", a), ("unstep", a)]])
+                        if st.nviol >= 3:
+                            return st
+                    else:
+                        st.nontrivial += 1
+            except Exception as e:  # noqa: BLE001
+                st.violation(f"[env poke n={n} {comp}] raised {type(e).__name__}: {e}", engine="poke", n=n, values=list(v), computer=comp, gap=gap_name,
+                             history=[list(map(str, h)) for h in hist])
+                return st
+            st.states += 1
+    return st
+
+
 def wc6_unit(u) -> Stats:
     """SAM computers on the WC6 family (repetitions matter there): path independence on the sub-lattice spanned by two known triples
     and two probes, one long-lived object."""
@@ -75,6 +118,8 @@ def wc6_unit(u) -> Stats:
 
 
 def dispatch(u) -> Stats:
+    if u[0] == "poke":
+        return poke_unit(u)
     if u[0] == "wc6":
         return wc6_unit(u)
     return env_unit(u) if u[0] == "env" else lattice_unit(u)
@@ -136,6 +181,10 @@ def units(run: Run):
         for comp in ("superadditive", "superadditive_cached", "sam_apx_1"):
             for gap_name in gaps.NAMES:
                 us.append(("env", 3, f"shift#{i}", gv, comp, gap_name))
+    for k in range(3 if quick else 12):
+        us.append(("poke", 3, A.shifted(g3[(17 * (seed + 1) + 311 * k) % len(g3)], A.ADD3), ("superadditive", "superadditive_cached", "sam_apx_1")[k % 3],
+                   gaps.NAMES[k % 4]))
+    us.append(("poke", 4, A.shifted(reps[(5 * (seed + 1)) % len(reps)], A.ADD4), "superadditive_cached", "l1_norm"))
     # hidden games of ANY class (a mis-specified game class must still give path-independent observables), tie-heavy integers
     nonsa3 = [g for g in A.a3_any() if not A.is_superadditive(g)]
     for k in range(4 if quick else 16):
@@ -157,6 +206,8 @@ def units(run: Run):
 
 
 def cost(u) -> float:
+    if u[0] == "poke":
+        return 300 if u[1] == 4 else 5
     if u[0] == "wc6":
         return 4000
     if u[0] == "env":
@@ -183,6 +234,10 @@ def run(run: Run) -> None:
 
 
 def replay(doc: dict):
+    if doc.get("engine") == "poke":
+        st = poke_unit(("poke", doc["n"], tuple(doc["values"]), doc["computer"], doc["gap"]))
+        msgs = [v["message"] for v in st.violations]
+        return bool(msgs), "; ".join(msgs[:2]) if msgs else "step;unstep restores everything also after a value was set through the game object"
     if doc.get("engine") == "env":
         from ..envmodel import replay_env
         return replay_env(doc)
